@@ -112,6 +112,9 @@ class Sandbox:
                 os.makedirs(os.path.dirname(rp), exist_ok=True)
                 with open(rp, "wb") as f:
                     f.write(c.encode("latin-1"))
+                # one fixed modification time for every file: a target left by an earlier build of the same package
+                # (same names, same sizes, same timestamps, other bytes) must not pass for a current copy
+                os.utime(rp, (1_000_000_000, 1_000_000_000))
             else:
                 self.outside.append(p)
 
